@@ -82,6 +82,7 @@ Definition dec_s (fuel : nat) (v : val) : option stmt :=
   | VL [VZ 6; p; it; mn; e] =>
     match get_n p, dec_e fuel it, dec_e fuel mn, dec_e fuel e with
     | Some p', Some i', Some m', Some e' => Some (SSetMenu p' i' m' e') | _, _, _, _ => None end
+  | VL [VZ 7] => Some SExit
   | _ => None
   end.
 
@@ -168,6 +169,7 @@ Definition text_okb_s (en : env) (props : list string) (s : stmt) : bool :=
   | SSetThe k i v => text_okb en (EThe k i) && negb (starts_with "field(" (render en (pp_tok en (EThe k i)))) && text_okb en v
   | SSetAcc n o v => text_okb en (EAcc n o) && text_okb en v
   | SSetMenu pid it mn v => text_okb en (EMenu pid it mn) && text_okb en v
+  | SExit => true
   end.
 Definition js_okb_s (en : env) (props : list string) (s : stmt) : bool :=
   match s with
@@ -178,6 +180,7 @@ Definition js_okb_s (en : env) (props : list string) (s : stmt) : bool :=
   | SSetThe k i v => js_okb en (EThe k i) && js_okb en v
   | SSetAcc _ _ _ => false
   | SSetMenu pid it mn v => js_okb en (EMenu pid it mn) && js_okb en v
+  | SExit => true
   end.
 Definition is_qnil (q : prog2) : bool := match q with QNil => true | _ => false end.
 Fixpoint text_okb_q (en : env) (props : list string) (q : prog2) : bool :=
